@@ -86,18 +86,34 @@ impl StorageRecords {
         }
     }
 
-    pub fn set_record(&mut self, record: StorageRecord) {
+    pub fn set_record(&mut self, record: StorageRecord) -> Result<(), DbError> {
         if record.index == 0 {
             self.mark_free(record.pos, record.size);
         } else {
             let index = record.index as usize;
 
             if self.records.len() <= index {
-                self.records.resize(index + 1, StorageRecord::default());
+                let new_len = usize::try_from(record.index)
+                    .ok()
+                    .and_then(|index| index.checked_add(1))
+                    .filter(|new_len| {
+                        self.records
+                            .try_reserve(new_len - self.records.len())
+                            .is_ok()
+                    })
+                    .ok_or_else(|| {
+                        DbError::storage(
+                            DbErrorType::InvalidIndex,
+                            format!("Record index ({}) too large", record.index),
+                        )
+                    })?;
+                self.records.resize(new_len, StorageRecord::default());
             }
 
             self.records[index] = record;
         }
+
+        Ok(())
     }
 
     pub fn rebuild_free_index(&mut self) {
